@@ -62,29 +62,17 @@ variable (c : Cfg L K) (norm : L → L)
     LostCode entries are exactly the tags of the old file, in file order, that the new file
     no longer has and whose body is non-empty — each with its complete body. -/
 theorem lost_onDisk (hn : NormOK c norm) (B : K → List L) (hB : UserOK c B)
-    (F₀ F₁ : List (Item L)) (hF₀ : FreshDoc c norm F₀) (hF₁ : FreshDoc c norm F₁)
-    (hx : CrossOK c F₀ F₁) :
+    (F₀ F₁ : List (Item L)) (hF₀ : FreshDoc c norm F₀) (hF₁ : FreshDoc c norm F₁) :
     lostEntries (collect c (render (onDisk c norm B F₀)))
         (used c (collect c (render (onDisk c norm B F₀))) (render F₁))
       = ((blockKeys c F₀).filter (fun k => !(decide (k ∈ blockKeys c F₁)) && !(B k).isEmpty)).map
           (fun k => (k, B k)) := by
-  have hb := blocksOf_onDisk c norm B F₀ _ hF₀.items
+  have hb := blocksOf_onDisk c norm B F₀ hF₀.items
   have hnd : (Tags.keys (blocksOf c (onDisk c norm B F₀))).Nodup := by
     rw [hb, Tags.keys_map_body]; exact hF₀.nodup
-  have hcol := collect_eq_blocksOf c _ (okOld_onDisk c norm hn B hB F₀ _ hF₀.items) hnd
+  have hcol := collect_eq_blocksOf c _ (okOld_onDisk c norm hn B hB F₀ hF₀.items) hnd
   have hget := collect_onDisk_get? c norm hn B hB F₀ hF₀
-  have hnew : ∀ it ∈ F₁, it.okNew c (collect c (render (onDisk c norm B F₀))) := by
-    intro it hit
-    have := hF₁.items it hit
-    cases it with
-    | text l =>
-      simp only [Item.okNew]
-      rw [hget]; simp [hx l hit]
-    | block o cl b =>
-      simp only [Item.freshOK] at this
-      obtain ⟨hb, _, _, hk, _, _⟩ := this
-      subst hb
-      simp [Item.okNew, hk]
+  have hnew := okNew_fresh c norm (collect c (render (onDisk c norm B F₀))) F₁ hF₁.items
   rw [used_render c _ F₁ hnew]
   -- the set of used keys, characterised
   have hU : ∀ k, k ∈ blockKeys c F₀ →
